@@ -1278,6 +1278,10 @@ ADVANCE_TO_APP_DATA:
         }
     }
 
+#ifdef MATRIXSSL_VERIF
+    MATRIX_VERIF_EV(MXV_REC_OK, ssl, ssl->rec.type,
+        (ssl->flags & SSL_FLAGS_READ_SECURE) ? 1 : 0, p, pend - p);
+#endif
 /*
     Take action based on the actual record type we're dealing with
     'p' points to the start of the data, and 'pend' points to the end
@@ -2288,6 +2292,9 @@ parseHandshake:
     }
 
 hsStateDetermined:
+#ifdef MATRIXSSL_VERIF
+    MATRIX_VERIF_EV(MXV_HS_GATE, ssl, hsType, ssl->hsState, NULL, 0);
+#endif
     if (hsType == SSL_HS_CLIENT_HELLO)
     {
         sslInitHSHash(ssl);
@@ -3029,6 +3036,9 @@ SKIP_HSHEADER_PARSE:
         ssl->err = SSL_ALERT_UNEXPECTED_MESSAGE;
         return MATRIXSSL_ERROR;
     }
+#ifdef MATRIXSSL_VERIF
+    MATRIX_VERIF_EV(MXV_HS_ACCEPT, ssl, hsType, rc, NULL, 0);
+#endif
 
 #ifdef USE_DTLS
     if (ACTV_VER(ssl, v_dtls_any))
